@@ -149,7 +149,7 @@ func init() {
 
 func (p *c11) ID() string { return "C11" }
 func (p *c11) Rule() string {
-	return "expr: every string of <=3 (thorough <=4) tokens over 26 expression fragments (names, pipes, calls, lone quotes, brackets, operators, mustache delimiters) written into 8 expression positions ({{ }}, :attr, v-text, v-if, v-for, v-html, mustache in a static attribute, :class/:style object values); soup: seeded random bytes, token soup over an HTML/mustache/directive dictionary and byte/token mutations of the repository's .vuego corpus, as template body and as front-matter, through 7 entry points; types: every typed value of a 45-value catalogue (all numeric kinds, nil, typed nils, chan, func, maps with non-string keys, structs with unexported/embedded fields, cyclic pointer struct, deep nesting) x every directive position (v-for collection, v-if/else-if, v-show, :style with/without static style, :class, object syntax, v-html, v-text, bound/interpolated attrs, path steps, every built-in filter and argument position, operators, include props, slot props, template vars) - exhaustive; graph: every include graph over 3 files (each includes any subset of the others and itself) x 4 include forms (direct, in v-for, in v-if, as slot content) - exhaustive, plus layout cycles/chains; slotfwd: wrapper components forwarding named/default/scoped slots to inner components (also through two levels, inside v-for, and through a layout); struct: struct/pointer root data with unexported, embedded and cyclic fields; non-trivial = every case that reached the engine; distinct by case content"
+	return "longlived: 16 sequences (Template string / Template file / Vue.Render / Vue.RenderFragment x conditions / operators / paths / mixed) of 700 distinct templates rendered on ONE engine - far more distinct expressions and paths than its caches hold - every render returns (a render parked on a lock nobody else holds is read off the goroutine dump); expr: every string of <=3 (thorough <=4) tokens over 26 expression fragments (names, pipes, calls, lone quotes, brackets, operators, mustache delimiters) written into 8 expression positions ({{ }}, :attr, v-text, v-if, v-for, v-html, mustache in a static attribute, :class/:style object values); soup: seeded random bytes, token soup over an HTML/mustache/directive dictionary and byte/token mutations of the repository's .vuego corpus, as template body and as front-matter, through 7 entry points; types: every typed value of a 45-value catalogue (all numeric kinds, nil, typed nils, chan, func, maps with non-string keys, structs with unexported/embedded fields, cyclic pointer struct, deep nesting) x every directive position (v-for collection, v-if/else-if, v-show, :style with/without static style, :class, object syntax, v-html, v-text, bound/interpolated attrs, path steps, every built-in filter and argument position, operators, include props, slot props, template vars) - exhaustive; graph: every include graph over 3 files (each includes any subset of the others and itself) x 4 include forms (direct, in v-for, in v-if, as slot content) - exhaustive, plus layout cycles/chains; slotfwd: wrapper components forwarding named/default/scoped slots to inner components (also through two levels, inside v-for, and through a layout); struct: struct/pointer root data with unexported, embedded and cyclic fields; non-trivial = every case that reached the engine; distinct by case content"
 }
 
 var c11Vals = []TV{
@@ -318,7 +318,7 @@ var c11NStruct = len(c11StructRoots) * len(c11EPs)
 
 func (p *c11) Plan(ctx core.Ctx) int {
 	a, b, c, d, e := p.dims(ctx)
-	return a + b + c + d + e + c11NExpr(ctx)
+	return a + b + c + d + e + c11NExpr(ctx) + c11NLong()
 }
 
 // expr part: every string of <=3 (thorough <=4) tokens over an alphabet of
@@ -403,6 +403,9 @@ func (p *c11) soup(r *core.RNG) string {
 }
 
 func (p *c11) Gen(ctx core.Ctx, i int) any {
+	if a, b, c, d, e := p.dims(ctx); i >= a+b+c+d+e+c11NExpr(ctx) {
+		return c11LongCase(i - (a + b + c + d + e + c11NExpr(ctx)))
+	}
 	nsoup, ntypes, ngraph, nlayout, _ := p.dims(ctx)
 	if i < nsoup {
 		r := core.NewRNG(ctx.Seed, 0xC11, uint64(i))
@@ -531,6 +534,9 @@ func c11Run(ep string, files map[string]string, entry, tpl string, data any) (st
 
 func (p *c11) Exec(ctx core.Ctx, cc any) (o core.Obs) {
 	c := cc.(c11Case)
+	if c.Part == "longlived" {
+		return c11ExecLong(c)
+	}
 	c11Install()
 	c11Evals.Store(0)
 	c11Serial.Store(0)
